@@ -21,5 +21,6 @@ if [ $rc -eq 0 ]; then
   echo "MUTANT $ID/$NAME exit=$rc $(grep -c '^VIOLATION' /tmp/mut-$ID-$NAME.log) violation(s) $(grep -m1 -o '\[[a-z0-9-]*\] [^\\n]\{0,140\}' /tmp/mut-$ID-$NAME.log | head -1)"
 fi
 git -C /repo worktree remove --force $WT
-rm -rf /verif/.cache/alt /verif/.cache/bin/*.[0-9a-f][0-9a-f][0-9a-f][0-9a-f][0-9a-f][0-9a-f][0-9a-f][0-9a-f][0-9a-f][0-9a-f]*.test 2>/dev/null
+TAG=$(python3 -c "import hashlib,sys;print(hashlib.sha256(sys.argv[1].encode()).hexdigest()[:10])" $WT)
+rm -rf /verif/.cache/alt/go-$TAG.* /verif/.cache/bin/*.$TAG*.test /verif/.cache/out/*.$TAG 2>/dev/null
 exit 0
